@@ -128,9 +128,23 @@ theorem not_covers_of_length_lt : ∀ (p : List String) (a : Ptr), a.length < p.
     rw [not_covers_of_length_lt gs ks (by simpa using h)]
     simp
 
-/-- under the one-schema hypothesis the resolver returns exactly the selected pointers the document has -/
-theorem mem_resolveRec (p : List String) (d : J) (q : Ptr) (hw : d.wf = true)
-    (hs : ∀ a : Ptr, a.length < p.length → prefMatch p a = true → ∀ v, getP a d = some v → v.isObj = true) :
+theorem mem_childrenOf_arr (xs : List J) (k : String) (c : J) :
+    (k, c) ∈ childrenOf (.arr xs) ↔ ∃ i, parseIndex k = some i ∧ xs[i]? = some c := by
+  simp only [childrenOf, List.mem_map]
+  constructor
+  · rintro ⟨⟨v, i⟩, hmem, heq⟩
+    simp only [Prod.mk.injEq] at heq
+    obtain ⟨rfl, rfl⟩ := heq
+    exact ⟨i, parseIndex_idxKey i, List.mem_zipIdx_iff_getElem?.1 hmem⟩
+  · rintro ⟨i, hp, hx⟩
+    refine ⟨(c, i), List.mem_zipIdx_iff_getElem?.2 hx, ?_⟩
+    simp only [Prod.mk.injEq, and_true]
+    exact (idxKey_of_parseIndex k i hp).symm
+
+/-- Since commit 33969c0 the resolver returns exactly the selected pointers the document has —
+for EVERY document with unique keys: objects by key, arrays by canonical index, and nothing
+below a string or any other scalar. -/
+theorem mem_resolveRec (p : List String) (d : J) (q : Ptr) (hw : d.wf = true) :
     q ∈ resolveRec p d ↔ (matchPtr p q = true ∧ getP q d ≠ none) := by
   induction p generalizing d q with
   | nil =>
@@ -138,35 +152,67 @@ theorem mem_resolveRec (p : List String) (d : J) (q : Ptr) (hw : d.wf = true)
     | nil => simp [resolveRec, matchPtr, getP]
     | cons k ks => simp [resolveRec, matchPtr]
   | cons g gs ih =>
-    have hobj := hs [] (by simp) (by simp [prefMatch]) d (by simp [getP])
-    cases d <;> simp [J.isObj] at hobj
-    rename_i kvs
-    have hk : J.wfKvs kvs = true := by simpa [J.wf] using hw
-    have hsub : ∀ k c, lookup k kvs = some c → fnmatch k g = true →
-        ∀ a : Ptr, a.length < gs.length → prefMatch gs a = true → ∀ v, getP a c = some v → v.isObj = true := by
-      intro k c hl hm a hla hpa v hv
-      apply hs (k :: a) (by simpa using hla) (by simp [prefMatch, hm, hpa]) v
-      simp [getP, hl, hv]
-    simp only [resolveRec, childrenOf, List.mem_flatMap, List.mem_filter, List.mem_map]
-    constructor
-    · rintro ⟨kv, ⟨hmem, hm⟩, q', hq', rfl⟩
-      obtain ⟨k, c⟩ := kv
-      have hl := lookup_of_mem k c kvs hk hmem
-      have := (ih c q' (wf_of_lookup k kvs c hk hl) (hsub k c hl hm)).1 hq'
-      simp only [matchPtr, hm, this.1, Bool.and_self, getP, hl, true_and]
-      exact this.2
-    · rintro ⟨hm, hg⟩
+    have hscalar : ∀ d' : J, childrenOf d' = [] → (∀ k ks, getP (k :: ks) d' = none) →
+        (q ∈ resolveRec (g :: gs) d' ↔ (matchPtr (g :: gs) q = true ∧ getP q d' ≠ none)) := by
+      intro d' hc hg
+      simp only [resolveRec, hc, List.filter_nil, List.flatMap_nil, List.not_mem_nil, false_iff, not_and]
+      intro hm
       cases q with
       | nil => simp [matchPtr] at hm
-      | cons k q' =>
-        simp only [matchPtr, Bool.and_eq_true] at hm
-        simp only [getP] at hg
-        cases hl : lookup k kvs with
-        | none => simp [hl] at hg
-        | some c =>
-          simp only [hl] at hg
-          refine ⟨(k, c), ⟨mem_of_lookup k c kvs hl, hm.1⟩, q', ?_, rfl⟩
-          exact (ih c q' (wf_of_lookup k kvs c hk hl) (hsub k c hl hm.1)).2 ⟨hm.2, hg⟩
+      | cons k ks => simp [hg k ks]
+    cases d with
+    | null => exact hscalar _ rfl (fun _ _ => by simp [getP])
+    | bool b => exact hscalar _ rfl (fun _ _ => by simp [getP])
+    | num n => exact hscalar _ rfl (fun _ _ => by simp [getP])
+    | str s => exact hscalar _ rfl (fun _ _ => by simp [getP])
+    | obj kvs =>
+      have hk : J.wfKvs kvs = true := by simpa [J.wf] using hw
+      simp only [resolveRec, childrenOf, List.mem_flatMap, List.mem_filter, List.mem_map]
+      constructor
+      · rintro ⟨kv, ⟨hmem, hm⟩, q', hq', rfl⟩
+        obtain ⟨k, c⟩ := kv
+        have hl := lookup_of_mem k c kvs hk hmem
+        have := (ih c q' (wf_of_lookup k kvs c hk hl)).1 hq'
+        simp only [matchPtr, hm, this.1, Bool.and_self, getP, hl, true_and]
+        exact this.2
+      · rintro ⟨hm, hg⟩
+        cases q with
+        | nil => simp [matchPtr] at hm
+        | cons k q' =>
+          simp only [matchPtr, Bool.and_eq_true] at hm
+          simp only [getP] at hg
+          cases hl : lookup k kvs with
+          | none => simp [hl] at hg
+          | some c =>
+            simp only [hl] at hg
+            refine ⟨(k, c), ⟨mem_of_lookup k c kvs hl, hm.1⟩, q', ?_, rfl⟩
+            exact (ih c q' (wf_of_lookup k kvs c hk hl)).2 ⟨hm.2, hg⟩
+    | arr xs =>
+      have hx : J.wfList xs = true := by simpa [J.wf] using hw
+      simp only [resolveRec, List.mem_flatMap, List.mem_filter, List.mem_map]
+      constructor
+      · rintro ⟨kv, ⟨hmem, hm⟩, q', hq', rfl⟩
+        obtain ⟨k, c⟩ := kv
+        obtain ⟨i, hp, hxi⟩ := (mem_childrenOf_arr xs k c).1 hmem
+        have := (ih c q' (wfList_getElem xs i c hx hxi)).1 hq'
+        simp only [matchPtr, hm, this.1, Bool.and_self, getP, hp, hxi, true_and]
+        exact this.2
+      · rintro ⟨hm, hg⟩
+        cases q with
+        | nil => simp [matchPtr] at hm
+        | cons k q' =>
+          simp only [matchPtr, Bool.and_eq_true] at hm
+          simp only [getP] at hg
+          cases hp : parseIndex k with
+          | none => simp [hp] at hg
+          | some i =>
+            simp only [hp] at hg
+            cases hxi : xs[i]? with
+            | none => simp [hxi] at hg
+            | some c =>
+              simp only [hxi] at hg
+              refine ⟨(k, c), ⟨(mem_childrenOf_arr xs k c).2 ⟨i, hp, hxi⟩, hm.1⟩, q', ?_, rfl⟩
+              exact (ih c q' (wfList_getElem xs i c hx hxi)).2 ⟨hm.2, hg⟩
 
 /-- the executable test `spineOk` is sound for the one-schema hypothesis -/
 theorem spineOk_sound (p : List String) (d : J) (h : spineOk p d = true) :
@@ -201,6 +247,89 @@ theorem spineObj_of_check (ps : List (List String)) (d : J) (h : ps.all (fun p =
     SpineObj ps d := by
   intro p hp a hla hpa v hv
   exact spineOk_sound p d (List.all_eq_true.1 h p hp) a hla hpa v hv
+
+/-- the executable test `noArrOk` is sound for `SpineNoArr` -/
+theorem noArrOk_sound (p : List String) (d : J) (h : noArrOk p d = true) :
+    ∀ a : Ptr, a.length < p.length → prefMatch p a = true → ∀ v, getP a d = some v → v.isArr = false := by
+  induction p generalizing d with
+  | nil => intro a hla; simp at hla
+  | cons g gs ih =>
+    intro a hla hpa v hv
+    cases a with
+    | nil =>
+      simp only [getP, Option.some.injEq] at hv
+      subst hv
+      cases d <;> simp [noArrOk] at h <;> rfl
+    | cons k a' =>
+      cases d with
+      | null => simp [getP] at hv
+      | bool b => simp [getP] at hv
+      | num n => simp [getP] at hv
+      | str s => simp [getP] at hv
+      | arr xs => simp [noArrOk] at h
+      | obj kvs =>
+        simp only [noArrOk] at h
+        simp only [prefMatch, Bool.and_eq_true] at hpa
+        simp only [getP] at hv
+        cases hl : lookup k kvs with
+        | none => simp [hl] at hv
+        | some c =>
+          simp only [hl] at hv
+          have := List.all_eq_true.1 h (k, c) (mem_of_lookup k c kvs hl)
+          simp only [hpa.1, Bool.not_true, Bool.false_or] at this
+          exact ih c this a' (by simpa using hla) hpa.2 v hv
+
+theorem spineNoArr_of_check (ps : List (List String)) (d : J) (h : ps.all (fun p => noArrOk p d) = true) :
+    SpineNoArr ps d := by
+  intro p hp a hla hpa v hv
+  exact noArrOk_sound p d (List.all_eq_true.1 h p hp) a hla hpa v hv
+
+theorem spineNoArr_of_spineObj (ps : List (List String)) (d : J) (h : SpineObj ps d) : SpineNoArr ps d := by
+  intro p hp a hla hpa v hv
+  have := h p hp a hla hpa v hv
+  cases v <;> simp [J.isObj] at this
+  rfl
+
+/-- a value with something below it is an object unless it is an array -/
+theorem isObj_of_getP_below (c : Ptr) (w : J) (hc : c ≠ []) (h : getP c w ≠ none) (hna : w.isArr = false) :
+    w.isObj = true := by
+  cases c with
+  | nil => exact absurd rfl hc
+  | cons k rest => cases w <;> simp [getP, J.isArr] at h hna <;> rfl
+
+/-- The invariant of the merge loop: what the document under construction has above a
+selectable pointer is an object, or it is what the fragment has at that place (copied
+from the fragment by an earlier, shorter pattern). -/
+def SpineRel (ps : List (List String)) (f r : J) : Prop :=
+  ∀ p ∈ ps, ∀ a : Ptr, a.length < p.length → prefMatch p a = true → ∀ v, getP a r = some v →
+    v.isObj = true ∨ getP a f = some v
+
+theorem spineRel_of_spineObj (ps : List (List String)) (f r : J) (h : SpineObj ps r) : SpineRel ps f r :=
+  fun p hp a hla hpa v hv => Or.inl (h p hp a hla hpa v hv)
+
+theorem spineObj_of_spineRel (ps : List (List String)) (f r : J) (h : SpineRel ps f r) (hf : SpineObj ps f) :
+    SpineObj ps r := by
+  intro p hp a hla hpa v hv
+  rcases h p hp a hla hpa v hv with h1 | h1
+  · exact h1
+  · exact hf p hp a hla hpa v h1
+
+/-- under the invariant, a proper ancestor `a` of a pointer `a ++ c` selected by `p` that has
+something below it along `c` — in the fragment, if it is the fragment's — is an object -/
+theorem spineRel_obj (ps : List (List String)) (f r : J) (hsf : SpineNoArr ps f) (hsr : SpineRel ps f r)
+    (p : List String) (hp : p ∈ ps) (a c : Ptr) (hc : c ≠ []) (hm : matchPtr p (a ++ c) = true)
+    (w : J) (hw : getP a r = some w) (hbelow : w.isObj = true ∨ getP c w ≠ none) : w.isObj = true := by
+  have hla : a.length < p.length := by
+    rw [← matchPtr_length p (a ++ c) hm]
+    cases c with
+    | nil => exact absurd rfl hc
+    | cons _ _ => simp
+  have hpa := prefMatch_of_matchPtr p a c hm
+  rcases hsr p hp a hla hpa w hw with h1 | h1
+  · exact h1
+  · rcases hbelow with h2 | h2
+    · exact h2
+    · exact isObj_of_getP_below c w hc h2 (hsf p hp a hla hpa w h1)
 
 /-! ### one `pointer.set` and one `pop` inside `apply_json_fragment` -/
 
@@ -246,13 +375,30 @@ theorem popOk_of (q : Ptr) (d : J) (h : ∀ a c, q = a ++ c → c ≠ [] → Obj
         exact ⟨kvs2, by simpa [getP, hl] using h2⟩
 
 section step
-variable (ps : List (List String)) (f : J) (hwf : f.wf = true) (hsf : SpineObj ps f)
+variable (ps : List (List String)) (f : J) (hwf : f.wf = true) (hsf : SpineNoArr ps f)
 variable (p : List String) (hp : p ∈ ps) (hpne : p ≠ [])
 include hwf hsf hp hpne
 
+omit hwf hpne in
+theorem admits_of_rel (q : Ptr) (r : J) (hm : matchPtr p q = true) (hgf : getP q f ≠ none)
+    (hsr : SpineRel ps f r) : Admits q r := by
+  apply admits_of
+  intro a c hqe hc w hw
+  subst hqe
+  rcases hsr p hp a (by
+      rw [← matchPtr_length p (a ++ c) hm]
+      cases c with
+      | nil => exact absurd rfl hc
+      | cons _ _ => simp) (prefMatch_of_matchPtr p a c hm) w hw with h1 | h1
+  · exact h1
+  · refine spineRel_obj ps f r hsf hsr p hp a c hc hm w hw (Or.inr ?_)
+    intro hn
+    rw [getP_append, h1] at hgf
+    exact hgf hn
+
 theorem set_step (q : Ptr) (v r : J) (hm : matchPtr p q = true) (hv : getP q f = some v)
-    (hwr : r.wf = true) (hsr : SpineObj ps r) :
-    ∃ r', setStep f r q = .ok r' ∧ r'.wf = true ∧ SpineObj ps r' ∧ getP q r' = some v ∧
+    (hwr : r.wf = true) (hsr : SpineRel ps f r) :
+    ∃ r', setStep f r q = .ok r' ∧ r'.wf = true ∧ SpineRel ps f r' ∧ getP q r' = some v ∧
       (∀ q', Div q q' → getP q' r' = getP q' r) ∧
       (∀ q', getP q' r = getP q' f → getP q' r' = getP q' f) ∧
       (∀ a : Ptr, covers p a = false → ObjAt a r → ObjAt a r') := by
@@ -262,11 +408,7 @@ theorem set_step (q : Ptr) (v r : J) (hm : matchPtr p q = true) (hv : getP q f =
     cases p with
     | nil => exact hpne rfl
     | cons _ _ => simp at hlen
-  have hadm : Admits q r := by
-    apply admits_of
-    intro a c hqe hc w hw
-    subst hqe
-    exact hsr p hp a (by rw [← hlen]; simp; cases c <;> simp_all) (prefMatch_of_matchPtr p a c hm) w hw
+  have hadm : Admits q r := admits_of_rel ps f hsf p hp q r hm (by simp [hv]) hsr
   refine ⟨setO q v r, ?_, wf_setO q v r hadm hwr (wf_of_getP q f v hwf hv), ?_,
     getP_setO_self q v r hadm, fun q' hd => getP_setO_div q q' v r hadm hd, ?_, ?_⟩
   · simp only [setStep, getPtr_of_getP q f v hv]
@@ -276,13 +418,13 @@ theorem set_step (q : Ptr) (v r : J) (hm : matchPtr p q = true) (hv : getP q f =
     · rw [getP_setO_div q a v r hadm hd] at hw
       exact hsr p' hp' a hla hpa w hw
     · rw [getP_append, getP_setO_self q v r hadm] at hw
-      apply hsf p' hp' (q ++ c) hla hpa w
+      right
       rw [getP_append, hv]
       exact hw
     · obtain ⟨kvs, hk⟩ := getP_setO_prefix q v r hadm a c hqe hc
       rw [hk] at hw
       cases hw
-      rfl
+      exact Or.inl rfl
   · intro q' hq'
     rcases trichotomy q q' with hd | ⟨c, rfl⟩ | ⟨c, hc, hqe⟩
     · rw [getP_setO_div q q' v r hadm hd]; exact hq'
@@ -300,8 +442,8 @@ theorem set_step (q : Ptr) (v r : J) (hm : matchPtr p q = true) (hv : getP q f =
 
 omit hwf hsf in
 theorem pop_step (q : Ptr) (r : J) (hm : matchPtr p q = true) (hv : getP q f = none)
-    (hwr : r.wf = true) (hsr : SpineObj ps r) (hok : ∀ a c, q = a ++ c → c ≠ [] → ObjAt a r) :
-    ∃ r', popPtr q r = .ok r' ∧ r'.wf = true ∧ SpineObj ps r' ∧ getP q r' = none ∧
+    (hwr : r.wf = true) (hsr : SpineRel ps f r) (hok : ∀ a c, q = a ++ c → c ≠ [] → ObjAt a r) :
+    ∃ r', popPtr q r = .ok r' ∧ r'.wf = true ∧ SpineRel ps f r' ∧ getP q r' = none ∧
       (∀ q', Div q q' → getP q' r' = getP q' r) ∧
       (∀ q', getP q' r = getP q' f → getP q' r' = getP q' f) ∧
       (∀ a : Ptr, covers p a = false → ObjAt a r → ObjAt a r') := by
@@ -323,7 +465,7 @@ theorem pop_step (q : Ptr) (r : J) (hm : matchPtr p q = true) (hv : getP q f = n
     · obtain ⟨kvs, hk⟩ := getP_popO_prefix q r hpok a c hqe hc
       rw [hk] at hw
       cases hw
-      rfl
+      exact Or.inl rfl
   · intro q' hq'
     rcases trichotomy q q' with hd | ⟨c, rfl⟩ | ⟨c, hc, hqe⟩
     · rw [getP_popO_div q q' r hpok hd]; exact hq'
@@ -341,8 +483,8 @@ theorem pop_step (q : Ptr) (r : J) (hm : matchPtr p q = true) (hv : getP q f = n
 
 /-- lines 31-34 of jsontools.py: the loop over `new_pointers` -/
 theorem set_phase (L : List Ptr) (r : J) (hL : ∀ q ∈ L, matchPtr p q = true ∧ getP q f ≠ none)
-    (hwr : r.wf = true) (hsr : SpineObj ps r) :
-    ∃ r1, L.foldlM (setStep f) r = .ok r1 ∧ r1.wf = true ∧ SpineObj ps r1 ∧
+    (hwr : r.wf = true) (hsr : SpineRel ps f r) :
+    ∃ r1, L.foldlM (setStep f) r = .ok r1 ∧ r1.wf = true ∧ SpineRel ps f r1 ∧
       (∀ q', (∀ q ∈ L, Div q q') → getP q' r1 = getP q' r) ∧
       (∀ q ∈ L, getP q r1 = getP q f) ∧
       (∀ q', getP q' r = getP q' f → getP q' r1 = getP q' f) ∧
@@ -369,9 +511,9 @@ theorem set_phase (L : List Ptr) (r : J) (hL : ∀ q ∈ L, matchPtr p q = true 
 omit hwf hsf in
 /-- lines 37-42 of jsontools.py: the loop over `to_delete` -/
 theorem pop_phase (L : List Ptr) (r : J) (hL : ∀ q ∈ L, matchPtr p q = true ∧ getP q f = none)
-    (hwr : r.wf = true) (hsr : SpineObj ps r)
+    (hwr : r.wf = true) (hsr : SpineRel ps f r)
     (hok : ∀ q ∈ L, ∀ a c, q = a ++ c → c ≠ [] → ObjAt a r) :
-    ∃ r2, L.foldlM (fun r q => popPtr q r) r = .ok r2 ∧ r2.wf = true ∧ SpineObj ps r2 ∧
+    ∃ r2, L.foldlM (fun r q => popPtr q r) r = .ok r2 ∧ r2.wf = true ∧ SpineRel ps f r2 ∧
       (∀ q', (∀ q ∈ L, Div q q') → getP q' r2 = getP q' r) ∧
       (∀ q ∈ L, getP q r2 = none) ∧
       (∀ q', getP q' r = getP q' f → getP q' r2 = getP q' f) ∧
@@ -415,20 +557,17 @@ theorem fragStep_eq (f r : J) (pat : String) (p : List String) (hp : parsePointe
   simp only [fragStep, fragStepP, resolve_eq pat p f hp hne, resolve_eq pat p r hp hne]
   rfl
 
-theorem spine_local (ps : List (List String)) (d : J) (hs : SpineObj ps d) (p : List String) (hp : p ∈ ps) :
-    ∀ a : Ptr, a.length < p.length → prefMatch p a = true → ∀ v, getP a d = some v → v.isObj = true :=
-  fun a hla hpa v hv => hs p hp a hla hpa v hv
-
-/-- one iteration of the loop of `apply_json_fragment` under the one-schema hypothesis -/
-theorem frag_step (ps : List (List String)) (f : J) (hwf : f.wf = true) (hsf : SpineObj ps f)
-    (p : List String) (hp : p ∈ ps) (hpne : p ≠ []) (r : J) (hwr : r.wf = true) (hsr : SpineObj ps r) :
-    ∃ r', fragStepP f r p = .ok r' ∧ r'.wf = true ∧ SpineObj ps r' ∧
+/-- one iteration of the loop of `apply_json_fragment`: the fragment has no array above a
+selectable pointer, the document under construction satisfies the loop invariant -/
+theorem frag_step (ps : List (List String)) (f : J) (hwf : f.wf = true) (hsf : SpineNoArr ps f)
+    (p : List String) (hp : p ∈ ps) (hpne : p ≠ []) (r : J) (hwr : r.wf = true) (hsr : SpineRel ps f r) :
+    ∃ r', fragStepP f r p = .ok r' ∧ r'.wf = true ∧ SpineRel ps f r' ∧
       (∀ q, matchPtr p q = true → getP q r' = getP q f) ∧
       (∀ q', outsideOf p q' = true → getP q' r' = getP q' r) ∧
       (∀ q', getP q' r = getP q' f → getP q' r' = getP q' f) ∧
       (∀ a : Ptr, covers p a = false → ObjAt a r → ObjAt a r') := by
-  have memN := fun q => mem_resolveRec p f q hwf (spine_local ps f hsf p hp)
-  have memO := fun q => mem_resolveRec p r q hwr (spine_local ps r hsr p hp)
+  have memN := fun q => mem_resolveRec p f q hwf
+  have memO := fun q => mem_resolveRec p r q hwr
   obtain ⟨r1, s1, s2, s3, s4, s5, s6, s7⟩ :=
     set_phase ps f hwf hsf p hp hpne (resolveRec p f) r (fun q hq => (memN q).1 hq) hwr hsr
   let D := (resolveRec p r).filter (fun q => !((resolveRec p f).contains q))
@@ -455,7 +594,7 @@ theorem frag_step (ps : List (List String)) (f : J) (hwf : f.wf = true) (hsf : S
     cases hga : getP a r with
     | none => simp [hga] at hgr
     | some w =>
-      have := hsr p hp a hla (prefMatch_of_matchPtr p a c hm) w hga
+      have := spineRel_obj ps f r hsf hsr p hp a c hc hm w hga (Or.inr (by simpa [hga] using hgr))
       cases w <;> simp [J.isObj] at this
       exact ⟨_, hga⟩
   obtain ⟨r2, t1, t2, t3, t4, t5, t6, t7⟩ :=
@@ -485,14 +624,6 @@ theorem frag_step (ps : List (List String)) (f : J) (hwf : f.wf = true) (hsf : S
     rw [t4 q' (fun q hq => Div_of_outside p q q' (hD q hq).1 ho),
         s4 q' (fun q hq => Div_of_outside p q q' ((memN q).1 hq).1 ho)]
 
-theorem admits_of_spine (ps : List (List String)) (p : List String) (hp : p ∈ ps) (q : Ptr) (r : J)
-    (hm : matchPtr p q = true) (hsr : SpineObj ps r) : Admits q r := by
-  apply admits_of
-  intro a c hqe hc w hw
-  subst hqe
-  have hlen := matchPtr_length p (a ++ c) hm
-  exact hsr p hp a (by rw [← hlen]; simp; cases c <;> simp_all) (prefMatch_of_matchPtr p a c hm) w hw
-
 theorem foldlM_const {α : Type} (g : J → α → Except Err J) (l : List α) (s : J) (h : ∀ x ∈ l, g s x = .ok s) :
     l.foldlM g s = .ok s := by
   induction l with
@@ -502,11 +633,11 @@ theorem foldlM_const {α : Type} (g : J → α → Except Err J) (l : List α) (
     exact ih (fun y hy => h y (by simp [hy]))
 
 /-- a document that already agrees with the fragment on a pattern is a fixed point of its iteration -/
-theorem frag_step_fix (ps : List (List String)) (f : J) (hwf : f.wf = true) (hsf : SpineObj ps f)
-    (p : List String) (hp : p ∈ ps) (hpne : p ≠ []) (r : J) (hwr : r.wf = true) (hsr : SpineObj ps r)
+theorem frag_step_fix (ps : List (List String)) (f : J) (hwf : f.wf = true) (hsf : SpineNoArr ps f)
+    (p : List String) (hp : p ∈ ps) (hpne : p ≠ []) (r : J) (hwr : r.wf = true) (hsr : SpineRel ps f r)
     (hag : ∀ q, matchPtr p q = true → getP q r = getP q f) : fragStepP f r p = .ok r := by
-  have memN := fun q => mem_resolveRec p f q hwf (spine_local ps f hsf p hp)
-  have memO := fun q => mem_resolveRec p r q hwr (spine_local ps r hsr p hp)
+  have memN := fun q => mem_resolveRec p f q hwf
+  have memO := fun q => mem_resolveRec p r q hwr
   have h1 : (resolveRec p f).foldlM (setStep f) r = .ok r := by
     apply foldlM_const
     intro q hq
@@ -514,7 +645,7 @@ theorem frag_step_fix (ps : List (List String)) (f : J) (hwf : f.wf = true) (hsf
     cases hv : getP q f with
     | none => exact absurd hv hne
     | some v =>
-      have hadm := admits_of_spine ps p hp q r hm hsr
+      have hadm := admits_of_rel ps f hsf p hp q r hm hne hsr
       have hq0 : q ≠ [] := by
         intro e; subst e
         have := matchPtr_length p [] hm
@@ -533,9 +664,9 @@ theorem frag_step_fix (ps : List (List String)) (f : J) (hwf : f.wf = true) (hsf
   simp only [fragStepP, h1, h2]
   rfl
 
-theorem frag_fold (ps : List (List String)) (f : J) (hwf : f.wf = true) (hsf : SpineObj ps f)
-    (L : List (List String)) (hL : ∀ p ∈ L, p ∈ ps ∧ p ≠ []) (r : J) (hwr : r.wf = true) (hsr : SpineObj ps r) :
-    ∃ r', L.foldlM (fragStepP f) r = .ok r' ∧ r'.wf = true ∧ SpineObj ps r' ∧
+theorem frag_fold (ps : List (List String)) (f : J) (hwf : f.wf = true) (hsf : SpineNoArr ps f)
+    (L : List (List String)) (hL : ∀ p ∈ L, p ∈ ps ∧ p ≠ []) (r : J) (hwr : r.wf = true) (hsr : SpineRel ps f r) :
+    ∃ r', L.foldlM (fragStepP f) r = .ok r' ∧ r'.wf = true ∧ SpineRel ps f r' ∧
       (∀ p ∈ L, ∀ q, matchPtr p q = true → getP q r' = getP q f) ∧
       (∀ q', (∀ p ∈ L, outsideOf p q' = true) → getP q' r' = getP q' r) ∧
       (∀ q', getP q' r = getP q' f → getP q' r' = getP q' f) ∧
@@ -557,8 +688,8 @@ theorem frag_fold (ps : List (List String)) (f : J) (hwf : f.wf = true) (hsf : S
     · intro q' ho
       rw [b5 q' (fun x hx => ho x (by simp [hx])), a5 q' (ho p (by simp))]
 
-theorem frag_fold_fix (ps : List (List String)) (f : J) (hwf : f.wf = true) (hsf : SpineObj ps f)
-    (L : List (List String)) (hL : ∀ p ∈ L, p ∈ ps ∧ p ≠ []) (r : J) (hwr : r.wf = true) (hsr : SpineObj ps r)
+theorem frag_fold_fix (ps : List (List String)) (f : J) (hwf : f.wf = true) (hsf : SpineNoArr ps f)
+    (L : List (List String)) (hL : ∀ p ∈ L, p ∈ ps ∧ p ≠ []) (r : J) (hwr : r.wf = true) (hsr : SpineRel ps f r)
     (hag : ∀ p ∈ L, ∀ q, matchPtr p q = true → getP q r = getP q f) :
     L.foldlM (fragStepP f) r = .ok r := by
   induction L with
@@ -587,15 +718,17 @@ theorem applyFragment_eq (f : J) (acl : List String) (ps : List (List String)) (
       | error e => rfl
       | ok r1 => exact ih ps r1 hrest (fun x hx => hne x (by simp [hx]))
 
-/-- the three fragment laws of C13 for documents of one schema -/
+/-- The three fragment laws of C13.  The device document is of the patterns' schema (objects
+above every selectable pointer); the fragment may have a scalar — a string, say — where a
+pattern expects to continue: since commit 33969c0 the pattern selects nothing there. -/
 theorem fragment_laws (old f : J) (acl : List String) (ps : List (List String))
     (hparse : ParsedAcl acl ps) (hne : ∀ p ∈ ps, p ≠ [])
-    (hwo : old.wf = true) (hwf : f.wf = true) (hso : SpineObj ps old) (hsf : SpineObj ps f) :
+    (hwo : old.wf = true) (hwf : f.wf = true) (hso : SpineObj ps old) (hsf : SpineNoArr ps f) :
     ∃ r, applyFragment old f acl = .ok r ∧ InsideEq ps r f ∧ OutsideEq ps r old ∧
       applyFragment r f acl = .ok r ∧
       (∀ a : Ptr, (∀ p ∈ ps, covers p a = false) → ObjAt a old → ObjAt a r) := by
   obtain ⟨r, h1, h2, h3, h4, h5, _, h7⟩ :=
-    frag_fold ps f hwf hsf ps (fun p hp => ⟨hp, hne p hp⟩) old hwo hso
+    frag_fold ps f hwf hsf ps (fun p hp => ⟨hp, hne p hp⟩) old hwo (spineRel_of_spineObj ps f old hso)
   refine ⟨r, ?_, ?_, ?_, ?_, h7⟩
   · rw [applyFragment_eq f acl ps old hparse hne]; exact h1
   · intro p hp q hc
